@@ -8,6 +8,8 @@ use std::sync::*;
 #[cfg(desync_verif)]
 use crate::verif::sync::*;
 use std::collections::vec_deque::*;
+use std::mem;
+use std::sync::atomic;
 
 use futures::task;
 use futures::task::{Context};
@@ -101,12 +103,15 @@ impl SchedulerCore {
 
             // Signal any waiting condition variables
             core.wake_blocked.iter_mut()
-                .for_each(|cond_var| {
+                .for_each(|(cond_var, ready, rescheduled)| {
                     if let Some(cond_var) = cond_var.upgrade() {
+                        // Record the wake-up, then pass through the waiter's mutex so it is either not yet checking the flag or already waiting
+                        rescheduled.store(true, atomic::Ordering::SeqCst);
+                        if let Some(ready) = ready.upgrade() { mem::drop(ready.lock()); }
                         cond_var.notify_one();
                     }
                 });
-            core.wake_blocked.retain(|cond_var| cond_var.strong_count() > 0);
+            core.wake_blocked.retain(|(cond_var, _, _)| cond_var.strong_count() > 0);
 
             match core.state {
                 QueueState::Idle => {
